@@ -32,7 +32,11 @@ typedef int         MPI_Group;
 typedef int         MPI_Datatype;
 typedef int         MPI_Op;
 typedef int         MPI_Request;
-typedef int         MPI_Win;
+#ifdef SIMMPI_SMALL_WIN
+typedef int         MPI_Win;    /* 4-byte handle as in MPICH */
+#else
+typedef long        MPI_Win;    /* pointer-sized handle as in Open MPI (default) */
+#endif
 typedef int         MPI_Info;
 typedef int         MPI_Errhandler;
 typedef long        MPI_Aint;
@@ -343,23 +347,23 @@ int                 MPI_Get_count (const MPI_Status * status,
                                    MPI_Datatype datatype, int *count);
 int                 MPI_Wait (MPI_Request * request, MPI_Status * status);
 int                 MPI_Waitall (int count, MPI_Request array_of_requests[],
-                                 MPI_Status array_of_statuses[]);
+                                 MPI_Status * array_of_statuses);
 int                 MPI_Waitany (int count, MPI_Request array_of_requests[],
                                  int *indx, MPI_Status * status);
 int                 MPI_Waitsome (int incount,
                                   MPI_Request array_of_requests[],
                                   int *outcount, int array_of_indices[],
-                                  MPI_Status array_of_statuses[]);
+                                  MPI_Status * array_of_statuses);
 int                 MPI_Test (MPI_Request * request, int *flag,
                               MPI_Status * status);
 int                 MPI_Testall (int count, MPI_Request array_of_requests[],
-                                 int *flag, MPI_Status array_of_statuses[]);
+                                 int *flag, MPI_Status * array_of_statuses);
 int                 MPI_Testany (int count, MPI_Request array_of_requests[],
                                  int *indx, int *flag, MPI_Status * status);
 int                 MPI_Testsome (int incount,
                                   MPI_Request array_of_requests[],
                                   int *outcount, int array_of_indices[],
-                                  MPI_Status array_of_statuses[]);
+                                  MPI_Status * array_of_statuses);
 
 /* collectives */
 int                 MPI_Barrier (MPI_Comm comm);
